@@ -21,6 +21,6 @@ META = dict(
          "empty storage loads to genesis; record/file constants are the extracted ones. For every linear chain reached by submissions from genesis (any length, across "
          "the 1000-header files) and every load depth >= 0: Save succeeds and writes exactly header k as record k % 1000 of file k / 1000, one branch file and the index; Load of that "
          "succeeds and the loaded repository reports the same tip, the same header at every height >= 0 (memory above the load depth, files below), the same height for every "
-         "hash (pruned ones via the historical heights, unknown ones stay unknown) and the merged invalid list (C11_save_load_linear, C11_save_writes_linear).",
+         "hash (pruned ones via the historical heights, unknown ones stay unknown) and the merged invalid list (C11_save_load_linear, C11_save_writes_linear). In the linear world (every fork-free history of any length, any number of generations, files appended to after pruning) Save-then-Load with any depth restores every observation and the loaded repository is again a linear world of the same chain (C11_linear_generations).",
     note=COMMON_NOTE + "Partial: see evidence.",
 )
